@@ -5,35 +5,9 @@ import os
 
 ROOT = os.path.dirname(os.path.dirname(os.path.abspath(__file__)))
 
-# pid -> (technique, level text, level note, design ref)
-CLAIMED = {
-    "C13": (
-        "Lean 4 invariant proofs for the tokenizer's cursor/position arithmetic and highlight_sql + translator (delimiter tables, repair flags) + six-field token correspondence + position oracle on the real code",
-        "Proof (partial): Model/Lex.lean mirrors TokenizerCore (_scan, _advance incl. alnum batch and rewinds, _add, keyword/number/var/identifier/"
-        "string/comment scanners, _extract_string fast and slow path) and errors.highlight_sql. Properties/C13.lean proves for all inputs and "
-        "configurations that _advance keeps line = 1 + breaks-before and col = offset-in-line (single steps unconditionally, jumps/rewinds when no "
-        "CR/LF is skipped), that _add stamps tokens whose line/col agree with their end offset, that under the _scan phase discipline tokens are "
-        "strictly ordered, non-overlapping and inside the input, and that highlight_sql selects exactly s[a..b] with bounded contexts; per-dialect "
-        "delimiter facts are decided completely on tables regenerated every run. That lex's whole control flow follows the phase discipline and the "
-        "gap/coverage clause are NOT Lean theorems: they rest on exact model-vs-implementation correspondence (six token fields, ~6200 cases/run, "
-        "32 dialects) and on the search oracle, which alone covers ParseError/TokenError/meta positions.",
-        "Trusted: Lean kernel; hand-written Model/Lex.lean tied by sampled correspondence; CPython str.isspace/isalnum/isidentifier/upper shipped "
-        "per character on the protocol; behavioural probe of the three repair flags in the translator; the harness's reference line/col and gap parser.",
-        "DESIGN.md §4 C13",
-    ),
-    "C18": (
-        "Lean 4 refinement proof (cache-coherence invariant by induction over histories) + translator for the eviction policy + differential histories",
-        "Proof: Model/Schema.lean mirrors MappingSchema.find/add_table/column_names/get_column_type/has_column, the trie lookup and the "
-        "caches; Properties/C18.lean proves, for every history of any length, that each answer equals the answer of a schema freshly built "
-        "from the current mapping (schema_refines_fresh, by the invariant run_inv). The eviction policy is re-extracted from schema.py on "
-        "every run and the theorem generated_policy_ok re-checked; histories (exhaustive to length 3/4 over a small alphabet, random beyond) "
-        "are run on the real MappingSchema and on the model and compared answer by answer; the property's own oracle (fresh schema / "
-        "adds-only schema) is searched on the real code over all dialects.",
-        "Trusted: Lean kernel; translator (ast of add_table); hand-written model tied by sampled correspondence; normalisation modelled for the "
-        "base normalize_identifier on ASCII names (bigquery override and non-ASCII: search oracle only); visible/udf mappings not modelled.",
-        "DESIGN.md §4 C18",
-    ),
-}
+# pid -> {technique, text, note, ref}; edited through `python3 -m vf.claim` or by hand
+CLAIMS_FILE = os.path.join(ROOT, "vf", "claims.json")
+CLAIMED = {k: (v["technique"], v["text"], v["note"], v["ref"]) for k, v in json.load(open(CLAIMS_FILE)).items()}
 
 PENDING_REASON = "not yet built in this round: the check for this property is still under construction (see DESIGN.md §8 build order)"
 
